@@ -134,6 +134,7 @@ type State struct {
 	frames  []frame
 	havocs  []havocRec
 	noTypeInv bool
+	inGlobalInv bool
 }
 
 func (s *State) clone() *State {
@@ -218,6 +219,12 @@ func (s *State) heapSet(key, sort, term string) {
 
 // havocAll forgets the whole heap (fresh epoch); alloc only grows.
 func (s *State) havocAll(reason string) {
+	saved := s.privSnapshot()
+	before := map[string]string{}
+	for k, v := range s.heap {
+		before[k] = v
+	}
+	defer s.privRestore(saved, before)
 	s.c.eng.epochCtr++
 	s.epoch = s.c.eng.epochCtr
 	immKeep := s.c.eng.immutableKey
@@ -274,6 +281,12 @@ func (s *State) havocCall(reason string, pkgs []*types.Package, funcArg bool) {
 		}
 		return true
 	}
+	saved := s.privSnapshot()
+	before := map[string]string{}
+	for k, v := range s.heap {
+		before[k] = v
+	}
+	defer s.privRestore(saved, before)
 	eng.epochCtr++
 	s.epoch = eng.epochCtr
 	kept := 0
@@ -423,6 +436,7 @@ func (s *State) loadAddr(a *Addr) Val {
 		}
 		v, _ := unflatten(t, terms)
 		s.typeFacts(v)
+		s.globalInvFacts(a.Glob)
 		return v
 	}
 	switch kindOf(t) {
@@ -873,4 +887,26 @@ func sortedKeys[V any](m map[string]V) []string {
 	}
 	sort.Strings(ks)
 	return ks
+}
+
+// globalInvFacts: invariants of package-level state declared with `//@ globalinv` (established by the package's
+// initialiser, kept by immutability) are assumed whenever one of the package's globals is read outside
+// initialisation code.
+func (s *State) globalInvFacts(g *ssa.Global) {
+	eng := s.c.eng
+	if eng.immAllowed[s.c.fn] || eng.immAllowed[topFn(s.c.fn)] || s.inGlobalInv {
+		return
+	}
+	for _, gi := range eng.contracts.GlobalInvs {
+		if g.Pkg == nil || gi.Pkg != g.Pkg.Pkg.Name() {
+			continue
+		}
+		s.inGlobalInv = true
+		x := &EvalCtx{s: s, vars: map[string]Val{}, pkg: g.Pkg}
+		v := x.eval(gi.Expr)
+		s.inGlobalInv = false
+		s.c.specErrors(x, gi.Where)
+		s.assume(v.S)
+		s.c.assumed["global invariant "+gi.Src+" of package "+gi.Pkg+" (established by its initialiser, see C19; the state is immutable after init)"] = true
+	}
 }
